@@ -28,7 +28,8 @@ Rules applied to extracted text (recorded in evidence as coverage.extraction.dro
   9 (opt-in, `assoc X`) `Self::X` in a fn taken from a trait impl -> the impl's `type X = T` right-hand side
  11 (opt-in, `name_wildcard_closure_params`) closure parameter `|_|` -> `|_w|`
  10 (opt-in, `unpin_receiver`) `self: Pin<&mut Self>` -> `&mut self`; `let this = Pin::into_inner(self);` deleted and the
-    alias `this` renamed to `self`
+    alias `this` renamed to `self`; 10b: `mut self: Pin<&mut Self>` used through DerefMut -> `&mut self`;
+    10c: `path::m(self.as_mut(), args)` -> `self.m(args)`
 """
 import hashlib
 import json
@@ -290,13 +291,48 @@ def build(template_path, repo, out_path, drop_tags=()):
                 want2 = ["let", "this", "=", "Pin", "::", "into_inner", "(", "self", ")", ";"]
                 h1 = [k for k in range(len(ltoks) - len(want1) + 1) if [t.t for t in ltoks[k:k + len(want1)]] == want1]
                 h2 = [k for k in range(len(ltoks) - len(want2) + 1) if [t.t for t in ltoks[k:k + len(want2)]] == want2]
-                if len(h1) != 1 or len(h2) != 1:
+                # variant 10b: `mut self: Pin<&mut Self>` used directly through DerefMut (no alias statement)
+                direct = len(h1) == 1 and len(h2) == 0 and h1[0] > 0 and ltoks[h1[0] - 1].t == "mut"
+                if not direct and (len(h1) != 1 or len(h2) != 1):
                     raise ExtractError("rule 10: expected exactly one `self: Pin<&mut Self>` and one `let this = Pin::into_inner(self);`")
                 removed = [(e0, e1) for (e0, e1, _) in edits]
-                edits.append((ltoks[h1[0]].s, ltoks[h1[0] + len(want1) - 1].e, "&mut self"))
-                edits.append((ltoks[h2[0]].s, ltoks[h2[0] + len(want2) - 1].e, ""))
+                if direct:
+                    edits.append((ltoks[h1[0] - 1].s, ltoks[h1[0] + len(want1) - 1].e, "&mut self"))
+                    h2 = [len(ltoks) + 10]
+                else:
+                    edits.append((ltoks[h1[0]].s, ltoks[h1[0] + len(want1) - 1].e, "&mut self"))
+                    edits.append((ltoks[h2[0]].s, ltoks[h2[0] + len(want2) - 1].e, ""))
+                if direct:
+                    # variant 10c: a call through the pinned receiver in path form, `a::b::m(self.as_mut(), args)`
+                    # (re-pinning `self` for another method of the same impl), becomes the method call
+                    # `self.m(args)` on the unpinned receiver
+                    want3 = ["(", "self", ".", "as_mut", "(", ")"]
+                    n10c = 0
+                    for k in range(len(ltoks) - len(want3)):
+                        if [t.t for t in ltoks[k:k + len(want3)]] != want3:
+                            continue
+                        # walk back over `id (:: id)*`
+                        j = k - 1
+                        if j < 0 or ltoks[j].k != "id":
+                            raise ExtractError("rule 10c: `self.as_mut()` not as first argument of a path call")
+                        meth = ltoks[j].t
+                        while j >= 2 and ltoks[j - 1].t == "::" and ltoks[j - 2].k == "id":
+                            j -= 2
+                        after = ltoks[k + len(want3)]
+                        if after.t == ",":
+                            edits.append((ltoks[j].s, after.e, f"self.{meth}("))
+                        elif after.t == ")":
+                            edits.append((ltoks[j].s, ltoks[k + len(want3) - 1].e, f"self.{meth}("))
+                        else:
+                            raise ExtractError("rule 10c: unexpected token after `self.as_mut()`")
+                        n10c += 1
+                    if n10c:
+                        unit.drops["repinned_path_calls_made_method_calls"] = \
+                            unit.drops.get("repinned_path_calls_made_method_calls", 0) + n10c
                 nren = 0
                 for k, t in enumerate(ltoks):
+                    if direct:
+                        break
                     if t.k == "id" and t.t == "this" and not (h2[0] <= k < h2[0] + len(want2)):
                         if any(e0 <= t.s and t.e <= e1 for (e0, e1) in removed):
                             continue      # inside a dropped tracing invocation
